@@ -34,7 +34,8 @@ RULE = ('core routines (transpose_sparse_matrix_on_disk with / without '
         'all shapes up to 3x3 + a seeded sample of 4x4) and on random '
         'matrices up to 300x300 (empty slices, a single entry, fully dense, '
         '> 100 entries under a 1e-9 GB budget); file-level operations on '
-        'random matrices.  Values are unique ids.  Non-trivial = >= 2 '
+        'random matrices, incl. layer copies from dense layers in every '
+        'chunk layout.  Values are unique ids.  Non-trivial = >= 2 '
         'stored entries; distinct = distinct (shape, pattern / nnz, '
         'routine) tuples')
 ASSUMPTIONS = [
